@@ -325,5 +325,5 @@ pub fn run_c11(ctx: &Ctx) -> i32 {
         }
     }
     rep.sample(json!({"outer": "PrivateBatchCircuit(N=1) over the canonical leaf", "child": "leaf re-assembled with one extra copy constraint", "expected": "outer constraint system unsatisfied"}));
-    rep.finish(ctx, ctx.tier.pick(6, 12))
+    rep.finish(ctx, ctx.tier.pick(4, 12))
 }
